@@ -1984,19 +1984,24 @@ class Recipe:
         """
         if self.locked:
             raise RuntimeError("This recipe is locked.")
+        # everything is checked before anything is declared: a refused call declares nothing
+        objects = []
         for arg in args:
             if isinstance(arg, (Container, Plate)):
-                if arg.name not in self.results:
-                    self.results[arg.name] = deepcopy(arg)
-                else:
-                    raise ValueError(f"An object with the name: \"{arg.name}\" is already in use.")
+                objects.append(arg)
             elif isinstance(arg, Iterable):
                 unpacked = list(arg)
                 if not all(isinstance(elem, (Container, Plate)) for elem in unpacked):
                     raise TypeError("Invalid type in iterable.")
-                self.uses(*unpacked)
+                objects.extend(unpacked)
             else:
                 raise TypeError("Invalid type.")
+        names = [elem.name for elem in objects]
+        for name in names:
+            if name in self.results or names.count(name) > 1:
+                raise ValueError(f"An object with the name: \"{name}\" is already in use.")
+        for elem in objects:
+            self.results[elem.name] = deepcopy(elem)
         return self
 
     def transfer(self, source: Container | Plate | PlateSlicer, destination: Container | Plate | PlateSlicer,
